@@ -32,6 +32,7 @@ func main() {
 		verbose = flag.Bool("v", false, "verbose")
 		selfrec = flag.Int("selfrec", 4, "how often one function may be active on a call stack before it counts as unbounded recursion")
 		tier    = flag.String("tier", "quick", "quick|thorough (read by harnesses through vxThorough)")
+		escapes = flag.Bool("escapes", false, "run the compiler's escape analysis (go build -gcflags=-m) for vxAllocs")
 		known   = flag.String("known", "", "comma separated keys of open known findings (vxKnownOpen)")
 	)
 	flag.Parse()
@@ -46,7 +47,7 @@ func main() {
 	}
 	cfg := Config{Repo: *repo, Tags: *tags, Pkg: *pkg, Overlay: ov, Workers: *workers, TimeoutMs: *timeout, Seed: *seed,
 		MaxInstrs: *maxi, NoMerge: *nomerge, Unwind: *unwind, UnwindCut: *cut, RecLimit: *rec, MaxViol: *maxv, MaxPaths: *maxp,
-		ReplayDir: *replays, Verbose: *verbose, Tier: *tier, SelfRecLimit: *selfrec, Known: map[string]bool{}}
+		ReplayDir: *replays, Verbose: *verbose, Tier: *tier, Escapes: *escapes, SelfRecLimit: *selfrec, Known: map[string]bool{}}
 	for _, k := range strings.Split(*known, ",") {
 		if k != "" {
 			cfg.Known[k] = true
